@@ -48,7 +48,7 @@ def cases(tier):
             wrappers = False
         m = draw(spec.methods(U, name="m0", styles=("wrapped",), xml=False))
         # positional forms (complex_as=list, msgpack-rpc parameters) cannot omit a member
-        vg = values.ValueGen(U, special_floats=False,
+        vg = values.ValueGen(U, special_floats=False, nil_items=True,
                              full=(complex_as == "list" or prot == "msgpackrpc"))
         args = [draw(vg.value(t)) for _, t in m["args"]]
         rets = [draw(vg.value(t)) for t in m["ret"]]
@@ -199,7 +199,7 @@ def util_cases(tier):
                                         ["d", {"k": "prim", "t": "Decimal", "f": {},
                                                "occ": {"min": 0, "max": 1, "nillable": True}}]]}]
         cname = draw(st.sampled_from([c["name"] for c in U["classes"]]))
-        vg = values.ValueGen(U, special_floats=False)
+        vg = values.ValueGen(U, special_floats=False, nil_items=True)
         return {"part": "util", "U": U, "cls": cname, "v": draw(vg.single({"k": "ref", "n": cname})),
                 "fmt": draw(st.sampled_from(["json", "yaml"]))}
     return one()
